@@ -53,9 +53,45 @@ for _fid, _cls in (('odml/section.py::BaseSection._sections_cardinality_validati
 for _fid, _cls, _field in (('odml/section.py::BaseSection.sec_cardinality.setter', 'BaseSection', '_sec_cardinality'),
                            ('odml/section.py::BaseSection.prop_cardinality.setter', 'BaseSection', '_prop_cardinality'),
                            ('odml/property.py::BaseProperty.val_cardinality.setter', 'BaseProperty', '_val_cardinality')):
-    contract(_fid, types={'self': _cls, 'new_value': 'any'}, inv='T',
+    contract(_fid, types={'self': _cls, 'new_value': 'any'},
              requires='not is_ref(new_value)',
              ensures=['NF(field(self, "%s"))' % _field],
              raises={'ValueError': 'not acceptable(new_value)'},
              on_raise='Same',
              props=('C09', 'C06'))
+
+# ---- C08: default rules against iff-specs taken from the statement ---------------------------------
+# "unspecified Section type ... (warning)", "name equal to id ... (warning)"; errors and warnings never confused.
+contract('odml/validation.py::section_type_must_be_defined',
+         types={'sec': 'BaseSection'}, pure=True,
+         requires='field(sec, "type") is None or is_str(field(sec, "type"))',
+         ensures=['len(result) == (1 if field(sec, "type") == "n.s." else 0)',
+                  'implies(len(result) == 1, field(result[0], "rank") == "warning" and field(result[0], "obj") is sec)'],
+         raises={},
+         props=('C08', 'C19'))
+
+contract('odml/validation.py::object_name_readable',
+         types={'obj': ('BaseSection', 'BaseProperty')}, pure=True, inv='T',
+         requires='True',
+         ensures=['len(result) == (1 if field(obj, "_name") == field(obj, "_id") else 0)',
+                  'implies(len(result) == 1, field(result[0], "rank") == "warning" and field(result[0], "obj") is obj)'],
+         raises={},
+         props=('C08', 'C19'))
+
+# "missing required name/type (error)": the required attributes come from the format tables of the
+# current source (Section: type, name; Property: name; Document: none) - the loop over the table is unrolled
+contract('odml/validation.py::object_required_attributes',
+         types={'obj': 'BaseSection'}, pure=True, inv='T',
+         requires='(field(obj, "type") is None or is_str(field(obj, "type")))',
+         ensures=['len(result) == (0 if field(obj, "type") else 1) + (0 if field(obj, "_name") else 1)',
+                  'all(field(result[j], "rank") == "error" and field(result[j], "obj") is obj for j in range(len(result)))'],
+         raises={},
+         props=('C08', 'C19'))
+
+contract('odml/validation.py::object_required_attributes#property',
+         types={'obj': 'BaseProperty'}, pure=True, inv='T',
+         requires='True',
+         ensures=['len(result) == (0 if field(obj, "_name") else 1)',
+                  'all(field(result[j], "rank") == "error" and field(result[j], "obj") is obj for j in range(len(result)))'],
+         raises={},
+         props=('C08', 'C19'))
